@@ -55,6 +55,13 @@ const CYCLES: &[&[&str]] = &[
     &["zca :: zcf()", "zcf :: fn -> int do\n    zca\nend"],
     &["zca := zcb", "zcb := zcc", "zcc := zca"],
     &["zca :: (fn -> int do\n    zcb\nend)()", "zcb :: zca"],
+    // a function that reads a value whose initialiser uses the function *as a value* (passed, stored in a tuple / list / blob)
+    &["zcf :: fn -> int do\n    zcg + 1\nend", "zcg :: zch(zcf)", "zch :: fn f: fn -> int -> int do\n    1\nend"],
+    &["zcf :: fn -> int do\n    zcg[1] + 1\nend", "zcg :: (zcf, 1)"],
+    &["zcf :: fn -> int do\n    list.len(zcg)\nend", "zcg :: [zcf]"],
+    &["Zcb :: blob { m: fn -> int }", "zcf :: fn -> int do\n    zcg.m() + 1\nend", "zcg :: Zcb { m: zcf }"],
+    // a longer cycle through two functions and a value
+    &["zcf :: fn -> int do\n    zck()\nend", "zck :: fn -> int do\n    zcg\nend", "zcg :: zcf() + 1"],
 ];
 
 fn render_with(case: &Case, order: &[usize]) -> String {
